@@ -1,6 +1,7 @@
 package dkg
 
 import (
+	"bytes"
 	"errors"
 	"fmt"
 	"math"
@@ -173,15 +174,27 @@ func (d *DKG) ProcessDeals() ([]*dkg.Response, error) {
 		}
 		// kyber dereferences the deal's share without looking: a dealer that leaves it out must
 		// be refused here, not crash the machine
+		var sessionID []byte
 		if verifier, ok := d.instance.Verifiers()[deal.Index]; ok && deal.Deal != nil {
-			if plain, err := verifier.DecryptDeal(deal.Deal); err == nil && (plain.SecShare == nil || plain.SecShare.V == nil) {
-				return nil, fmt.Errorf("deal of participant %d carries no share", deal.Index)
+			if plain, err := verifier.DecryptDeal(deal.Deal); err == nil {
+				if plain.SecShare == nil || plain.SecShare.V == nil {
+					return nil, fmt.Errorf("deal of participant %d carries no share", deal.Index)
+				}
+				sessionID = plain.SessionID
 			}
 		}
 
 		resp, err := d.instance.ProcessDeal(deal)
 		if err != nil {
 			return nil, err
+		}
+
+		// The session id follows from the dealer, the verifiers, the commitments and the threshold;
+		// kyber answers with the one it computed but adopts the one written into the deal, and then
+		// refuses everybody else's responses about this dealer: a deal naming another session id
+		// is malformed.
+		if resp.Response != nil && !bytes.Equal(sessionID, resp.Response.SessionID) {
+			return nil, fmt.Errorf("deal of participant %d names a foreign session id", deal.Index)
 		}
 
 		// Commits verification.
